@@ -318,31 +318,34 @@ Definition undo_null (p : ipos) : option ipos :=
   | h :: rest => Some (restore h (unturn rest p))                      (* 345-355 *)
   end.
 
-(** ** setupBoard (966-1101) for the FEN of a specification position *)
+(** ** setupBoard (966-1142) for the FEN of a specification position.  setupBoard also
+    validates the FEN (rank lengths, exactly one king each, en-passant square consistent, side
+    not to move not in check: 994-1026, 1086-1100, 1107, 1121, 1135) and returns an error
+    otherwise; for an accepted FEN it builds exactly this. *)
 Definition empty_pos : ipos :=                                         (* 175 p := &Position{} *)
   mkipos 0 (repeat 0 64) 0 0 0%Z 0 (0, 0) 0%Z (repeat 0 14) (0, 0) [] (0, 0)%Z (0, 0)%Z (0, 0)%Z (0, 0)%Z 0%Z 0%Z.
 
-(* squares in FEN order: a8..h8, a7..h7, ..., a1..h1 (987-1008) *)
+(* squares in FEN order: a8..h8, a7..h7, ..., a1..h1 (988-1018) *)
 Definition fen_order : list N :=
   flat_map (fun r => map (fun f => mk_sq f r) [0;1;2;3;4;5;6;7]) [7;6;5;4;3;2;1;0].
 
 Definition place (t : tabs) (b : list N) (p : ipos) (s : N) : ipos :=
   let pc := at_ b s in
   if pc =? 0 then p                                                    (* digits only advance currentSquare *)
-  else match put_piece t p pc s with Some p' => p' | None => p end.    (* 1005; FEN letters are always valid pieces *)
+  else match put_piece t p pc s with Some p' => p' | None => p end.    (* 1015; FEN letters are always valid pieces *)
 
 Definition setup_of_spec (t : tabs) (q : pos) : ipos :=
   let p := fold_left (place t (brd q)) fen_order empty_pos in
   let blk := negb (stm q =? 0) in
-  let k1 := if blk then N.lxor (i_key p) (zn t) else i_key p in        (* 1033 *)
-  let k2 := N.lxor k1 (zc t (cr q)) in                                 (* 1062 (always) *)
-  let k3 := if ep q =? 64 then k2 else N.lxor k2 (ze t (file_of (ep q))) in   (* 1071-1074 *)
-  let mn := if fmn q =? 0 then 1 else fmn q in                         (* 1090-1092 *)
-  mkipos k3 (i_board p) (cr q) (ep q)                                  (* 1051-1057, 1016/1072 *)
-         (Z.of_N (hmc q))                                              (* 1080 *)
-         (stm q)                                                       (* 1029/1032 *)
+  let k1 := if blk then N.lxor (i_key p) (zn t) else i_key p in        (* 1047 *)
+  let k2 := N.lxor k1 (zc t (cr q)) in                                 (* 1076 (always) *)
+  let k3 := if ep q =? 64 then k2 else N.lxor k2 (ze t (file_of (ep q))) in   (* 1085-1091 *)
+  let mn := if fmn q =? 0 then 1 else fmn q in                         (* 1125-1127 *)
+  mkipos k3 (i_board p) (cr q) (ep q)                                  (* 1065-1071, 1030/1090 *)
+         (Z.of_N (hmc q))                                              (* 1111 *)
+         (stm q)                                                       (* 1043/1046 *)
          (i_ksq p)
-         (2 * Z.of_N mn - (1 - Z.of_N (stm q)))%Z                      (* 1093 *)
+         (2 * Z.of_N mn - (1 - Z.of_N (stm q)))%Z                      (* 1128 *)
          (i_pbb p) (i_occ p) [] (i_mat p) (i_matnp p) (i_psqm p) (i_psqe p) (i_phase p) 0%Z.
 
 (** ** Abstraction to the rules specification, FEN (908-949) *)
@@ -351,30 +354,30 @@ Definition abs (p : ipos) : pos :=
         (Z.to_N (Z.quot (i_nhm p + 1) 2)).                             (* 946 (nextHalfMoveNumber+1)/2 *)
 Definition fen_of (p : ipos) : str := print (abs p).
 
-(** ** Getters (1107-1220) *)
-Definition ZobristKey (p : ipos) : N := i_key p.                       (* 1108 *)
-Definition NextPlayer (p : ipos) : N := i_stm p.                       (* 1113 *)
-Definition GetPiece (p : ipos) (sq : N) : option N := nth_error (i_board p) (N.to_nat sq).  (* 1119 *)
+(** ** Getters (1148-1261) *)
+Definition ZobristKey (p : ipos) : N := i_key p.                       (* 1149 *)
+Definition NextPlayer (p : ipos) : N := i_stm p.                       (* 1154 *)
+Definition GetPiece (p : ipos) (sq : N) : option N := nth_error (i_board p) (N.to_nat sq).  (* 1160 *)
 Definition PiecesBb (p : ipos) (c pt : N) : option N :=
-  if (c <? 2) && (pt <? 7) then Some (bb_get (i_pbb p) c pt) else None.        (* 1124 *)
-Definition OccupiedBb (p : ipos) (c : N) : N := sel c (i_occ p).       (* 1134 *)
-Definition OccupiedAll (p : ipos) : N := N.lor (fst (i_occ p)) (snd (i_occ p)).  (* 1129 *)
-Definition GamePhase (p : ipos) : Z := i_phase p.                      (* 1141 *)
-(* 1147 GamePhaseFactor = float64(gamePhase)/24 : numerator and denominator *)
+  if (c <? 2) && (pt <? 7) then Some (bb_get (i_pbb p) c pt) else None.        (* 1165 *)
+Definition OccupiedBb (p : ipos) (c : N) : N := sel c (i_occ p).       (* 1175 *)
+Definition OccupiedAll (p : ipos) : N := N.lor (fst (i_occ p)) (snd (i_occ p)).  (* 1170 *)
+Definition GamePhase (p : ipos) : Z := i_phase p.                      (* 1182 *)
+(* 1188 GamePhaseFactor = float64(gamePhase)/24 : numerator and denominator *)
 Definition GamePhaseFactor (p : ipos) : Z * Z := (i_phase p, GamePhaseMax).
-Definition GetEnPassantSquare (p : ipos) : N := i_ep p.                (* 1152 *)
-Definition CastlingRights (p : ipos) : N := i_cr p.                    (* 1157 *)
-Definition KingSquare (p : ipos) (c : N) : N := sel c (i_ksq p).       (* 1162 *)
-Definition HalfMoveClock (p : ipos) : Z := i_hmc p.                    (* 1167 *)
-Definition Material (p : ipos) (c : N) : Z := sel c (i_mat p).         (* 1173 *)
-Definition MaterialNonPawn (p : ipos) (c : N) : Z := sel c (i_matnp p).  (* 1179 *)
-Definition PsqMidValue (p : ipos) (c : N) : Z := sel c (i_psqm p).     (* 1186 *)
-Definition PsqEndValue (p : ipos) (c : N) : Z := sel c (i_psqe p).     (* 1193 *)
-Definition LastMove (p : ipos) : N :=                                  (* 1199-1204 *)
+Definition GetEnPassantSquare (p : ipos) : N := i_ep p.                (* 1193 *)
+Definition CastlingRights (p : ipos) : N := i_cr p.                    (* 1198 *)
+Definition KingSquare (p : ipos) (c : N) : N := sel c (i_ksq p).       (* 1203 *)
+Definition HalfMoveClock (p : ipos) : Z := i_hmc p.                    (* 1208 *)
+Definition Material (p : ipos) (c : N) : Z := sel c (i_mat p).         (* 1214 *)
+Definition MaterialNonPawn (p : ipos) (c : N) : Z := sel c (i_matnp p).  (* 1220 *)
+Definition PsqMidValue (p : ipos) (c : N) : Z := sel c (i_psqm p).     (* 1227 *)
+Definition PsqEndValue (p : ipos) (c : N) : Z := sel c (i_psqe p).     (* 1234 *)
+Definition LastMove (p : ipos) : N :=                                  (* 1240-1245 *)
   match i_hist p with [] => 0 | h :: _ => h_move h end.
-Definition LastCapturedPiece (p : ipos) : N :=                         (* 1209-1214 *)
+Definition LastCapturedPiece (p : ipos) : N :=                         (* 1250-1255 *)
   match i_hist p with [] => 0 | h :: _ => h_cap h end.
-Definition WasCapturingMove (p : ipos) : bool := negb (LastCapturedPiece p =? 0).  (* 1218 *)
+Definition WasCapturingMove (p : ipos) : bool := negb (LastCapturedPiece p =? 0).  (* 1259 *)
 Definition IsCapturingMove (p : ipos) (m : N) : bool :=                (* 532-534 *)
   N.testbit (sel (cflip (i_stm p)) (i_occ p)) (mv_to m) || (mv_type m =? 2).
 
